@@ -41,10 +41,10 @@ func mix(a, b, k int) uint64 {
 
 // function families (indexed, so trees are data)
 const (
-	nPred  = 7
+	nPred  = 9
 	nMap   = 3
 	nJoin  = 8
-	nPPred = 7
+	nPPred = 9
 	nPMap  = 3
 	nPJoin = 7
 	nToSeq = 7
@@ -103,6 +103,47 @@ func pred(f, x int) bool {
 		return mix(x, 0, 6)%4 == 0 // mostly false
 	}
 }
+// mkPred: one predicate instance per tree node and evaluation. Families 7 and 8 have memory (first occurrence of a
+// residue class, every third call): their answer depends on what they were asked before, so list semantics is the
+// sequential evaluation, once per element of the node's input, in order - which is what a filter over a list does.
+func mkPred(f int) func(int) bool {
+	switch f {
+	case 7:
+		seen := map[int]bool{}
+		return func(x int) bool {
+			k := x % 5
+			if seen[k] {
+				return false
+			}
+			seen[k] = true
+			return true
+		}
+	case 8:
+		n := 0
+		return func(x int) bool { n++; return n%3 != 0 }
+	}
+	return func(x int) bool { return pred(f, x) }
+}
+
+func mkPPred(f int) func(int, int) bool {
+	switch f {
+	case 7:
+		seen := map[int]bool{}
+		return func(k, v int) bool {
+			c := v % 4
+			if seen[c] {
+				return false
+			}
+			seen[c] = true
+			return true
+		}
+	case 8:
+		n := 0
+		return func(k, v int) bool { n++; return n%3 != 1 }
+	}
+	return func(k, v int) bool { return ppred(f, k, v) }
+}
+
 func mapf(f, x int) int {
 	switch f {
 	case 0:
@@ -287,9 +328,10 @@ func (e *evalCtx) listS(n *node) []int {
 	case "takewhile":
 		in := e.listS(n.Kids[0])
 		var out []int
+		p := mkPred(n.F)
 		for i, x := range in {
 			e.see(n.id, x, 0)
-			if !pred(n.F, x) {
+			if !p(x) {
 				_ = i
 				break
 			}
@@ -306,16 +348,18 @@ func (e *evalCtx) listS(n *node) []int {
 			e.see(n.id, x, 0)
 		}
 		i := 0
-		for i < len(in) && pred(n.F, in[i]) {
+		p := mkPred(n.F)
+		for i < len(in) && p(in[i]) {
 			i++
 		}
 		return slices.Clone(in[i:])
 	case "filter":
 		in := e.listS(n.Kids[0])
 		var out []int
+		p := mkPred(n.F)
 		for _, x := range in {
 			e.see(n.id, x, 0)
-			if pred(n.F, x) {
+			if p(x) {
 				out = append(out, x)
 			}
 		}
@@ -360,7 +404,8 @@ func (e *evalCtx) listP(n *node) []kv {
 			e.see(n.id, p.K, p.V)
 		}
 		i := 0
-		for i < len(in) && ppred(n.F, in[i].K, in[i].V) {
+		p := mkPPred(n.F)
+		for i < len(in) && p(in[i].K, in[i].V) {
 			i++
 		}
 		return slices.Clone(in[:i])
@@ -370,16 +415,18 @@ func (e *evalCtx) listP(n *node) []kv {
 			e.see(n.id, p.K, p.V)
 		}
 		i := 0
-		for i < len(in) && ppred(n.F, in[i].K, in[i].V) {
+		p := mkPPred(n.F)
+		for i < len(in) && p(in[i].K, in[i].V) {
 			i++
 		}
 		return slices.Clone(in[i:])
 	case "pfilter":
 		in := e.listP(n.Kids[0])
 		var out []kv
+		pp := mkPPred(n.F)
 		for _, p := range in {
 			e.see(n.id, p.K, p.V)
-			if ppred(n.F, p.K, p.V) {
+			if pp(p.K, p.V) {
 				out = append(out, p)
 			}
 		}
@@ -496,11 +543,14 @@ func (b *buildCtx) buildS(n *node) seq.Seq[int] {
 		b.leaves = append(b.leaves, leafRef{given: given, orig: slices.Clone(given[:cap(given)])})
 		return seq.FromSlice(given)
 	case "takewhile":
-		return seq.TakeWhile(b.buildS(n.Kids[0]), func(x int) bool { b.see(n.id, x, 0); return pred(n.F, x) })
+		p := mkPred(n.F)
+		return seq.TakeWhile(b.buildS(n.Kids[0]), func(x int) bool { b.see(n.id, x, 0); return p(x) })
 	case "dropwhile":
-		return seq.DropWhile(b.buildS(n.Kids[0]), func(x int) bool { b.see(n.id, x, 0); return pred(n.F, x) })
+		p := mkPred(n.F)
+		return seq.DropWhile(b.buildS(n.Kids[0]), func(x int) bool { b.see(n.id, x, 0); return p(x) })
 	case "filter":
-		return seq.Filter(b.buildS(n.Kids[0]), func(x int) bool { b.see(n.id, x, 0); return pred(n.F, x) })
+		p := mkPred(n.F)
+		return seq.Filter(b.buildS(n.Kids[0]), func(x int) bool { b.see(n.id, x, 0); return p(x) })
 	case "map":
 		return seq.Map(b.buildS(n.Kids[0]), func(x int) int { b.see(n.id, x, 0); return mapf(n.F, x) })
 	case "plus":
@@ -529,11 +579,14 @@ func (b *buildCtx) buildP(n *node) pair.Seq[int, int] {
 	case "pfrom":
 		return pair.From(n.Xs[0], n.Xs[1])
 	case "ptakewhile":
-		return pair.TakeWhile(b.buildP(n.Kids[0]), func(k, v int) bool { b.see(n.id, k, v); return ppred(n.F, k, v) })
+		p := mkPPred(n.F)
+		return pair.TakeWhile(b.buildP(n.Kids[0]), func(k, v int) bool { b.see(n.id, k, v); return p(k, v) })
 	case "pdropwhile":
-		return pair.DropWhile(b.buildP(n.Kids[0]), func(k, v int) bool { b.see(n.id, k, v); return ppred(n.F, k, v) })
+		p := mkPPred(n.F)
+		return pair.DropWhile(b.buildP(n.Kids[0]), func(k, v int) bool { b.see(n.id, k, v); return p(k, v) })
 	case "pfilter":
-		return pair.Filter(b.buildP(n.Kids[0]), func(k, v int) bool { b.see(n.id, k, v); return ppred(n.F, k, v) })
+		p := mkPPred(n.F)
+		return pair.Filter(b.buildP(n.Kids[0]), func(k, v int) bool { b.see(n.id, k, v); return p(k, v) })
 	case "pmap":
 		return pair.Map(b.buildP(n.Kids[0]), func(k, v int) int { b.see(n.id, k, v); return pmapf(n.F, k, v) })
 	case "pplus":
@@ -965,16 +1018,16 @@ func main() {
 	depth := 3
 	if !pairs {
 		if common.Thorough() {
-			a = alphabet{preds: []int{0, 1, 2, 3, 4, 5, 6}, maps: []int{0, 2}, joins: []int{0, 1, 2, 3, 4, 5, 6, 7}, leaves: 6}
+			a = alphabet{preds: []int{0, 1, 2, 3, 4, 5, 6, 7, 8}, maps: []int{0, 2}, joins: []int{0, 1, 2, 3, 4, 5, 6, 7}, leaves: 6}
 		} else {
-			a = alphabet{preds: []int{0, 1, 2, 4}, maps: []int{0}, joins: []int{2, 3, 4, 5, 6}, leaves: 4}
+			a = alphabet{preds: []int{0, 1, 2, 7, 8}, maps: []int{0}, joins: []int{2, 3, 4, 5, 6}, leaves: 4}
 		}
 	} else {
 		if common.Thorough() {
-			a = alphabet{preds: []int{2, 4}, maps: []int{0}, joins: []int{2}, ppreds: []int{1, 3, 4, 5}, pmaps: []int{0}, pjoins: []int{2, 3, 4, 5}, toseqs: []int{2, 3, 5}, fromseqs: []int{1, 2, 4}, leaves: 3}
+			a = alphabet{preds: []int{2, 4}, maps: []int{0}, joins: []int{2}, ppreds: []int{1, 3, 4, 7}, pmaps: []int{0}, pjoins: []int{2, 3, 4, 5}, toseqs: []int{2, 3, 5}, fromseqs: []int{1, 2, 4}, leaves: 3}
 			depth = 4
 		} else {
-			a = alphabet{preds: []int{1, 2, 4}, maps: []int{0}, joins: []int{2, 4}, ppreds: []int{0, 1, 2, 3, 4, 5}, pmaps: []int{0, 2}, pjoins: []int{0, 1, 2, 3, 4, 5, 6}, toseqs: []int{0, 1, 2, 3, 4, 5, 6}, fromseqs: []int{0, 1, 2, 3, 4, 5}, leaves: 4}
+			a = alphabet{preds: []int{1, 2, 7}, maps: []int{0}, joins: []int{2, 4}, ppreds: []int{0, 1, 2, 3, 7, 8}, pmaps: []int{0, 2}, pjoins: []int{0, 1, 2, 3, 4, 5, 6}, toseqs: []int{0, 1, 2, 3, 4, 5, 6}, fromseqs: []int{0, 1, 2, 3, 4, 5}, leaves: 4}
 			depth = 3
 		}
 	}
